@@ -417,6 +417,11 @@ def number_kinds(res: Result, dim, system, depth, only=None):
                             continue
                         res.traces += 1
                         got, exp = _cart(v, dim), _cart(want, dim)
+                        if not all(x == x and abs(x) != float("inf") for x in exp) or max(abs(x) for x in exp[: min(dim, 3)]) < 1e-9:
+                            # the history cancelled the vector exactly (v *= 2; v /= -2; v += same): the zero vector has no angles
+                            res.count("history_ends_in_a_degenerate_vector")
+                            ok = False
+                            continue
                         scale = max(1.0, max(abs(x) for x in exp))
                         if id(v) != ident or type(v) is not typ or L.system_of(v)[0] != tuple(system):
                             res.violation(klass + "|identity", f"after {hist}: object identity / class / coordinate system changed ({type(v).__name__}, {L.system_of(v)[0]})", case)
